@@ -115,7 +115,7 @@ CLAIMS = {
              "size 4*field (as a non-wrapping number) lies in 2..65536, the stream holds that many bytes, the protocol id is supported and the transform count fits; on success HeaderLen == 14 + declared, "
              "PayloadLen == total + 4 - HeaderLen, flags / sequence id / protocol id are the header's. readKVInfo and the section readers are proved exactly equal to the info-section grammar "
              "(internal/verifspec InfoOK): success iff every section is complete, for every byte string.",
-        note="Decode applies readKVInfo to bytes equal to the stream's; that composition (grammar over the stream itself) is not restated as a Decode postcondition. Map contents are not modelled. "
+        note="Decode / DecodeFromBytes are characterised completely: given a valid meta block, enough bytes, a supported protocol id and a fitting transform count, they succeed exactly when the info section of the stream is well formed by the grammar (this uses the content-congruence instances for spec functions, listed as an assumption). Map contents are not modelled. "
              "DecodeFromBytes: same clauses with the stream being exactly the given bytes. " + TRUST,
         design="5 C10"),
     "C11": dict(
